@@ -5,3 +5,4 @@ import MoreExec.Props.C14
 #print axioms MoreExec.BoolOp.C14_decided_once
 #print axioms MoreExec.BoolOp.C14_output_cancel_fans_out
 #print axioms MoreExec.BoolOp.C14_step_closed_form
+#print axioms MoreExec.BoolOp.C14_repeated_inputs
